@@ -495,8 +495,29 @@ fn eval_paste(req: &str) -> ImplOut {
                 }
             }
         }
-        if !hit && !circular && obs_before != obs_after {
-            out = out.fail("c16:cut:observer-value-changed", &format!("formulas pointing at the cut cells changed value: {obs_before:?} → {obs_after:?}"));
+        // values: an observer of a moved CONSTANT keeps its value; a moved FORMULA may legitimately compute
+        // something else at its new place (its own references to cells outside the cut area stay put, and
+        // the block may have been moved into or out of a range it reads, e.g. =SUM(C:C) with a moved value
+        // landing in column C): its observers must show whatever the moved cell shows now
+        if !hit && !circular {
+            for (k, ((rr, cc), _, rc)) in src.iter().enumerate() {
+                let (nr, nc) = (tr + (rr - r0), tc + (cc - c0));
+                if rc.is_none() {
+                    if obs_before[k] != obs_after[k] {
+                        out = out.fail("c16:cut:observer-value-changed", &format!("formulas pointing at the cut constant {rr},{cc} changed value: {} → {}", obs_before[k], obs_after[k]));
+                    }
+                } else {
+                    // SUM(-0) is +0: the sign of zero is not compared
+                    let now = format!("{:?}", model.get_cell_value_by_index(0, nr, nc)).replace("Number(-0.0)", "Number(0.0)");
+                    let want = format!("{now}|{now}|{now}");
+                    // SUM of a text/boolean/empty result is 0: only the direct observer is comparable then
+                    let after_k = obs_after[k].replace("Number(-0.0)", "Number(0.0)");
+                    let direct = after_k.split('|').next().unwrap_or("").to_string();
+                    if direct != now || (now.contains("Number") && after_k != want) {
+                        out = out.fail("c16:cut:observer-differs-from-moved-cell", &format!("moved formula {rr},{cc} → {nr},{nc} shows {now}, its observers show {}", obs_after[k]));
+                    }
+                }
+            }
         }
     }
     out
@@ -522,7 +543,7 @@ pub fn suites() -> Vec<Suite> {
         },
         Suite {
             name: "c16-paste",
-            rule: "random sheets (shared history generator) + a random source area (1..2 × 1..2), target offset and cut/copy flag through UserModel::copy_to_clipboard / paste_from_clipboard; oracle = pasted non-formula cells equal the originals (cut), copied formulas keep their R1C1 form, formulas pointing at cut cells keep their values; non-trivial = the paste was applied",
+            rule: "random sheets (shared history generator) + a random source area (1..2 × 1..2), target offset and cut/copy flag through UserModel::copy_to_clipboard / paste_from_clipboard; oracle = pasted non-formula cells equal the originals (cut), copied formulas keep their R1C1 form, formulas pointing at cut cells name the new location, keep their values when the cut cell is a constant and show the moved cell's value when it is a formula; non-trivial = the paste was applied",
             modelled: false,
             gen: gen_paste,
             eval: eval_paste,
